@@ -16,6 +16,8 @@ import (
 	"sort"
 	"strconv"
 	"strings"
+	"sync"
+	"sync/atomic"
 	"time"
 
 	"github.com/vicanso/pike/cache"
@@ -35,6 +37,7 @@ type c09Viol struct {
 }
 
 type c09Result struct {
+	Concurrent       int64          `json:"concurrent_decodes"`
 	RoundTrips       int64          `json:"round_trips"`
 	ReencodedDiffer  int64          `json:"reencoded_bytes_differ_info"`
 	RespRoundTrips   int64          `json:"response_round_trips"`
@@ -452,8 +455,61 @@ func c09Child(args []string) {
 			res.Distinct = append(res.Distinct, fmt.Sprintf("mut|%s|%d", kind, len(v)))
 		}
 	}
+	c09ConcurrentDecode(res, rnd, clock)
 	buf, _ := json.Marshal(res)
 	os.WriteFile(out, buf, 0644)
+}
+
+// c09ConcurrentDecode: records with different settings are decoded by several goroutines at once (as
+// lookups of different keys do); every decoded entry must re-encode to exactly the record it came from
+func c09ConcurrentDecode(res *c09Result, rnd *rand.Rand, clock *hx.Clock) {
+	filters := []string{"text|json", "image|svg", "^application/", "xml", "a.*b"}
+	var records [][]byte
+	for i, f := range filters {
+		s := c09Spec{State: "hit", Status: 200, RawLen: 300 + 50*i, Kind: "text", Variants: 1, Srv: fmt.Sprintf("srv%d", i), MinLen: 100 * i, Filter: f, CreatedAt: 1700000000, TTL: 60,
+			Header: [][2]string{{"Content-Type", "text/plain"}, {"X-I", fmt.Sprint(i)}}}
+		clock.Set(s.CreatedAt)
+		hc := cache.NewHTTPCache()
+		hc.Get()
+		resp := c09BuildResp(s, int64(i))
+		hc.Cacheable(resp, s.TTL)
+		// Cacheable stores with the best-compression profile; keep the per-record settings distinct
+		resp.CompressSrv = s.Srv
+		if d, err := hc.Bytes(); err == nil {
+			records = append(records, d)
+		}
+	}
+	var wg sync.WaitGroup
+	var bad atomic.Int64
+	var n atomic.Int64
+	var first atomic.Value
+	for g := 0; g < 8; g++ {
+		wg.Add(1)
+		go func(g int) {
+			defer wg.Done()
+			for i := 0; i < 4000; i++ {
+				rec := records[(g+i)%len(records)]
+				hc := cache.NewHTTPCache()
+				if err := hc.FromBytes(rec); err != nil {
+					bad.Add(1)
+					first.CompareAndSwap(nil, "decode error: "+err.Error())
+					continue
+				}
+				back, _ := hc.Bytes()
+				n.Add(1)
+				if !bytes.Equal(back, rec) {
+					bad.Add(1)
+					first.CompareAndSwap(nil, fmt.Sprintf("record %d decoded concurrently re-encodes differently (filter/settings of another record?)", (g+i)%len(records)))
+				}
+			}
+		}(g)
+	}
+	wg.Wait()
+	res.Concurrent = n.Load()
+	if bad.Load() > 0 {
+		res.add(c09Viol{Kind: "concurrent_decode_mixes_records", Text: fmt.Sprintf("%d of %d concurrent decodes wrong; first: %v", bad.Load(), n.Load()+bad.Load(), first.Load())})
+	}
+	res.Distinct = append(res.Distinct, "concurrent_decode")
 }
 
 func c09(r *hx.Run) {
@@ -496,6 +552,7 @@ func c09(r *hx.Run) {
 		var res c09Result
 		json.Unmarshal(buf, &res)
 		total.RoundTrips += res.RoundTrips
+		r.Add("concurrent_decodes_of_records_with_different_settings", res.Concurrent)
 		r.Add("reencoded_bytes_differ_info", res.ReencodedDiffer)
 		total.RespRoundTrips += res.RespRoundTrips
 		total.Prefixes += res.Prefixes
